@@ -195,6 +195,19 @@ func (v *VerifLoop) Writable(fd int) error {
 	return v.el.write(c)
 }
 
+// Event is one epoll event on fd through eventloop.callback, the reactor's dispatcher: readable,
+// writable or both at once (Read and Writable above are its two halves taken separately).
+func (v *VerifLoop) Event(fd int, readable, writable bool) error {
+	var ev uint32
+	if readable {
+		ev |= unix.EPOLLIN
+	}
+	if writable {
+		ev |= unix.EPOLLOUT
+	}
+	return v.el.callback(fd, ev)
+}
+
 // CloseFD closes the connection the way the loop does when the peer hangs up.
 func (v *VerifLoop) CloseFD(fd int) error {
 	c, ok := v.el.connections[fd]
